@@ -28,6 +28,7 @@ func main() {
 	goarch := flag.String("goarch", "", "GOARCH for the load")
 	noSelf := flag.Bool("no-selfcheck", false, "thorough tier: skip variant self-validation")
 	dumpFields := flag.Bool("dump-fieldtable", false, "print internal/rules/fieldtable.go for the analysed tree and exit")
+	dumpTypes := flag.Bool("dump-typetable", false, "print internal/rules/typetable.go for the analysed tree and exit")
 	dumpAnchors := flag.Bool("dump-anchortable", false, "print internal/rules/anchortable.go for the analysed tree and exit")
 	noInline := flag.Bool("no-inline", false, "disable virtual inlining of unexported same-package helpers (debugging)")
 	flag.Parse()
@@ -57,6 +58,15 @@ func main() {
 		}
 	}
 
+	if *dumpTypes {
+		w, err := core.Load(opts)
+		if err != nil {
+			fmt.Println(err)
+			os.Exit(2)
+		}
+		fmt.Print(rules.TypeTableSource(w))
+		return
+	}
 	if *dumpAnchors {
 		w, err := core.Load(opts)
 		if err != nil {
